@@ -501,6 +501,28 @@ func (bb *TwoDBoundingBox) UnmarshalJSON(data []byte) error {
 // A 2D Point in the CRS indicated elsewhere
 type TwoDPoint [2]float64
 
+func (p *TwoDPoint) UnmarshalJSON(data []byte) error {
+	var ordinates []interface{}
+	if err := json.Unmarshal(data, &ordinates); err != nil {
+		return err
+	}
+	return p.UnmarshalJSONFromMap(ordinates)
+}
+
+func (p *TwoDPoint) UnmarshalJSONFromMap(data interface{}) error {
+	ordinates, ok := data.([]interface{})
+	if !ok || len(ordinates) != len(p) {
+		return fmt.Errorf(`a 2D point should be an array of %d numbers, not %v`, len(p), data)
+	}
+	for i := range ordinates {
+		p[i], ok = ordinates[i].(float64)
+		if !ok {
+			return fmt.Errorf(`a 2D point should be an array of %d numbers, not %v`, len(p), data)
+		}
+	}
+	return nil
+}
+
 func IsLatLon(crs CRS) (bool, error) {
 	authority := crs.Authority()
 	version := crs.Version()
